@@ -292,6 +292,10 @@ def run(chk):
     # ------------------------------------------------------------------ R11 ODVariable.__len__ per data type (the download length check compares with len(obj); shared with C04.R5)
     from . import c04 as _c04len
     _c04len.bit_length_by_type(chk, "R11")
+    # ------------------------------------------------------------------ R2 a request is refused for its own reasons only: every segmented
+    # transfer starts from a fresh buffer and toggle 0 (shared clause; a stale toggle makes a well-formed first segment abort with 0x05030000)
+    from . import shared as _shared0
+    _shared0.server_reset(chk, "R2")
     # ------------------------------------------------------------------ R8 instances are independent (shared clause)
     from . import shared as _shared
     _shared.isolation(chk, "R8", rels=['canopen/sdo/server.py', 'canopen/sdo/base.py', 'canopen/node/local.py', 'canopen/objectdictionary/__init__.py'])
